@@ -125,7 +125,7 @@ impl Next<f64> for RelativeStrengthIndex {
         if up_ema + down_ema == 0.0 {
             return 50.0;
         }
-        100.0 * up_ema / (up_ema + down_ema)
+        100.0 * (up_ema / (up_ema + down_ema))
     }
 }
 
